@@ -82,15 +82,12 @@ Definition cnf_wf (c : circuit) : Prop := ∀ n i, c !! n = Some i → node_wf i
 Lemma lint_tables_ok : tables_ok gen_tables = true.
 Proof. vm_compute. reflexivity. Qed.
 
-Lemma lint_wf C : lint_clean C → no_x (c_g C) → cnf_wf (c_g C).
+Lemma lint_node_wf C n i : lint_clean C → c_g C !! n = Some i → n_ty i ≠ CX → node_wf i.
 Proof.
-  intros Hl Hx n i Hn. unfold lint_clean in Hl.
+  intros Hl Hn HX. unfold lint_clean in Hl.
   apply (lint_ok_iff gen_tables lint_tables_ok) in Hl.
   assert (Hnv : ¬ node_violates C default_flags n i).
   { intros Hv. apply Hl. left. eauto. }
-  assert (HX : n_ty i ≠ CX).
-  { intros E. unfold no_x in Hx. assert (n ∈ of_type (c_g C) (is_ty CX)) as Hin; [|rewrite Hx in Hin; set_solver].
-    apply elem_of_of_type. exists i. split; [done|]. unfold is_ty. by apply bool_decide_eq_true. }
   unfold node_violates in Hnv. unfold node_wf.
   assert (Hund : undriven default_flags = true) by reflexivity.
   assert (Hsz : n_fi i = ∅ ↔ size (n_fi i) = 0).
@@ -105,4 +102,9 @@ Proof.
             do 5 right; left; split; [done|]; split; [set_solver|apply Hsz; lia]).
   all: exfalso; apply Hnv; left; set_solver.
 Qed.
-
+Lemma lint_wf C : lint_clean C → no_x (c_g C) → cnf_wf (c_g C).
+Proof.
+  intros Hl Hx n i Hn. apply (lint_node_wf C n i Hl Hn).
+  intros E. unfold no_x in Hx. assert (n ∈ of_type (c_g C) (is_ty CX)) as Hin; [|rewrite Hx in Hin; set_solver].
+  apply elem_of_of_type. exists i. split; [done|]. unfold is_ty. by apply bool_decide_eq_true.
+Qed.
